@@ -1,9 +1,11 @@
 #!/bin/bash
 # quick tier of every check against a repository snapshot with a patch applied (used from `vp run --with-repo`
 # to try behaviour-preserving changes: any alarm here is a false alarm)
+patch=$(realpath "$1" 2>/dev/null || echo "$1")   # relative to where the caller stands, not to the repository snapshot
 cd "$(dirname "$0")"
+[ -f "$patch" ] || patch=$(realpath "$1")
 [ -n "$VP_RUN_REPO" ] || { echo "needs VP_RUN_REPO"; exit 2; }
-git -C "$VP_RUN_REPO" apply "$1" || { echo "patch does not apply"; exit 2; }
+git -C "$VP_RUN_REPO" apply "$patch" || { echo "patch does not apply"; exit 2; }
 export N2V_REPO=$VP_RUN_REPO; sed -i "s#path = \"/repo\"#path = \"$VP_RUN_REPO\"#" harness/Cargo.toml
 [ -d .cache ] || ./setup.sh > setup.log 2>&1
 for i in $(seq -w 1 20); do
